@@ -342,6 +342,12 @@ pub fn custom_layout_inputs(path: &str) -> Vec<Input> {
             d.customs.push(gen::CustomD { after, name, data: (0..len).map(|x| (x as u8).wrapping_mul(37).wrapping_add(q as u8 + pos)).collect() });
         }
         out.push(Input { id: format!("cust-{}", k), bytes: d.encode(), source: format!("cust:{}", descr.trim()) });
+        // every third layout again with a (well-formed, interpreted) DWARF section in front of everything
+        if k % 3 == 0 && !d.customs.is_empty() {
+            let mut d2 = d.clone();
+            d2.customs.insert(0, gen::CustomD { after: 0, name: ".debug_str".into(), data: b"x\0".to_vec() });
+            out.push(Input { id: format!("cust-{}-dw", k), bytes: d2.encode(), source: format!("cust:dwarf-first {}", descr.trim()) });
+        }
     }
     out
 }
